@@ -226,7 +226,9 @@ def edaSignal (raw : Nat) : String :=
   " neg=" ++ boolS (Sg.isNegated s) ++
   " varv=" ++ (if Sg.isVar s then toString (Sg.var s).toNat else "-") ++
   " inputv=" ++ (if Sg.isInput s then toString (Sg.input s).toNat else "-") ++
-  " not=" ++ toString (Sg.not s).toNat ++ " disp=" ++ Sg.display s
+  " not=" ++ toString (Sg.not s).toNat ++ " disp=" ++ Sg.display s ++
+  -- `Not for &Signal` and `Debug` (= `Display`)
+  " rnot=" ++ toString (Sg.not s).toNat ++ " dbg=" ++ Sg.display s
 
 /-! ### raw helpers -/
 
@@ -518,6 +520,11 @@ def step (d : DState) (line : String) : DState × String :=
     | some (e, []) => (d, edaBoxed e)
     | _ => bad
   | ["eda.signal", raw] => match raw.toNat? with | some r => (d, edaSignal r) | none => bad
+  | ["eda.consts"] =>
+    (d, "zero=" ++ toString Sg.zero.toNat ++ " one=" ++ toString Sg.one.toNat ++
+      " f0=" ++ toString (Sg.fromBool false).toNat ++ " f1=" ++ toString (Sg.fromBool true).toNat ++
+      " zc=" ++ boolS (Sg.isConst Sg.zero) ++ " oc=" ++ boolS (Sg.isConst Sg.one) ++
+      " nz=" ++ toString (Sg.not Sg.zero).toNat ++ " dz=" ++ Sg.display Sg.zero ++ " do=" ++ Sg.display Sg.one)
   | ["eda.fromvar", v] =>
     match v.toNat? with | some v => (d, toString (Sg.fromVar (BitVec.ofNat 32 v)).toNat) | none => bad
   | ["eda.frominput", v] =>
@@ -692,6 +699,13 @@ def step (d : DState) (line : String) : DState × String :=
     | some k => (d, outS (R.get (rawHash d.rawKind) d.rawDbg d.raw k)
         (fun o => match o with | some v => "some " ++ toString v | none => "none"))
     | none => bad
+  | ["raw.getmut", k, v] =>
+    match k.toNat?, v.toNat? with
+    | some k, some v =>
+      let kind := d.rawKind; let dbg := d.rawDbg
+      rawMut d (fun t => R.getMut (rawHash kind) dbg t k v)
+        (fun r => match r with | some v => "some " ++ toString v | none => "none")
+    | _, _ => bad
   | ["raw.find", k] =>
     match k.toNat? with
     | some k => (d, outS (R.find (rawHash d.rawKind) d.rawDbg d.raw k)
